@@ -769,20 +769,27 @@ def _run_value_discrete(case, rec):
 
     def one(obs, Bn, flag, mask_rows, mask_arg, where, judge_crash=True, form="numeric"):
         ci[0] += 1
-        rec.hit(f"calls:{algo}")
-        try:
-            a = act(obs, flag, mask_arg)
-        except Exception as e:
-            if judge_crash:
-                cx.crash(e, where, flag=flag, mask=mask_rows, n=n)
-            else:
-                cx.info_reject(e, f"mask_form_rejected:{form}")
-            return
-        rows = check_legal(cx, asp, a, Bn, "train", where, flag=flag)
-        if mask_rows is not None:
-            check_mask(cx, asp, rows, mask_rows, where, flag=flag, force=case["force"])
-        if explore_off(flag):
-            check_greedy(cx, rows, cap.out.get("actor"), mask_rows, where, flag=flag, force=case["force"])
+        # a caller that keeps ONE legal-moves array and hands the same object over on consecutive calls: every call is
+        # judged against the contents the caller wrote (extended forms always, every third numeric call)
+        again = mask_arg is not None and (form != "numeric" or ci[0] % 3 == 0)
+        for k in range(2 if again else 1):
+            rec.hit(f"calls:{algo}")
+            if k:
+                rec.hit("calls_with_the_same_mask_object_again")
+                where = where + "|same_mask_object_again"
+            try:
+                a = act(obs, flag, mask_arg)
+            except Exception as e:
+                if judge_crash:
+                    cx.crash(e, where, flag=flag, mask=mask_rows, n=n)
+                else:
+                    cx.info_reject(e, f"mask_form_rejected:{form}")
+                return
+            rows = check_legal(cx, asp, a, Bn, "train", where, flag=flag)
+            if mask_rows is not None:
+                check_mask(cx, asp, rows, mask_rows, where, flag=flag, force=case["force"])
+            if explore_off(flag):
+                check_greedy(cx, rows, cap.out.get("actor"), mask_rows, where, flag=flag, force=case["force"])
 
     try:
         for fname, nb, Bn in _forms(case, B):
@@ -968,6 +975,12 @@ def _run_bandit(case, rec):
     tap.on_return(type(agent).get_action, ["action_values"], label="values")
 
     def one(obs, mask, marg, where, judge_crash=True, form="numeric"):
+        _one(obs, mask, marg, where, judge_crash, form)
+        if marg is not None and form != "numeric":
+            rec.hit("calls_with_the_same_mask_object_again")
+            _one(obs, mask, marg, where + "|same_mask_object_again", judge_crash, form)
+
+    def _one(obs, mask, marg, where, judge_crash=True, form="numeric"):
         rec.hit(f"calls:{algo}")
         tap.clear()
         try:
@@ -1304,6 +1317,12 @@ def _run_ma_det(case, rec):
                 per, Ms = {}, {}
                 for ai, aid in enumerate(AGENTS):
                     M = np.stack([masks[(s + i + 3 * ai) % nm] for i in range(B)])
+                    if B >= 2 and si % 3 == 1 and ai == si % len(AGENTS):
+                        # this agent has already left ONE sub-environment (all-zero row, not judged); its masks in the other
+                        # sub-environments and everybody else's masks still bind
+                        M = M.copy()
+                        M[(si // 3) % B] = 0
+                        rec.hit("agent_rows_without_any_legal_action")
                     Ms[aid] = M
                     per[aid] = {"action_mask": _mask_value(M, vect, case["maskform"])}
                 expect = None
@@ -1426,6 +1445,10 @@ def _run_ippo(case, rec):
                 if aid not in masked_agents:
                     continue
                 M = np.stack([masks[(s + i + 3 * ai + 1) % nm] for i in range(B)])
+                if B >= 2 and si % 3 == 1 and ai == si % len(AGENTS) and discrete:
+                    M = M.copy()
+                    M[(si // 3) % B] = 0  # agent without a legal action in one sub-environment (row not judged)
+                    rec.hit("agent_rows_without_any_legal_action")
                 Ms[aid] = M
                 per[aid] = {"action_mask": _mask_value(M, vect, case["maskform"])}
             where = f"vect={vect}|mask:{case['maskform']}|order={order}" + ("|group_only" if len(masked_agents) < len(AGENTS) else "")
